@@ -145,4 +145,94 @@ def onlyKnownTypesM {N : Type} (known : Key → Bool) : Dict N → Bool
   | (_, v) :: r => onlyKnownTypes known v && onlyKnownTypesM known r
 end
 
+/-! ## Typed objects inside values: which dictionaries `Deserialize` turns back into objects
+
+  The tree model above shows an object as `Serialize` shows it (a dictionary with a `type` member) and therefore cannot
+  say whether a value that comes back from the state file is an *object* of that type again or a dictionary that
+  merely has its members.  The getters can (a `PerfdataValue` inside `performance_data`, the `CheckResult` inside
+  `last_check_result`): in the *getter view* of a value an object carries the extra first member `"@object": true`
+  (harness `GetterTree`).  `stripTag` is `Serialize` on that view (serializer.cpp:149-190: an object becomes the
+  dictionary of its fields plus `type`); `deserializeT` is `Deserialize` producing that view, with the `safe_mode`
+  flag of serializer.cpp:192-220, 327-330: in safe mode, or without a `type` member, a dictionary stays a dictionary;
+  otherwise it is instantiated (registered type) or becomes Empty.  Arrays and dictionaries pass the flag on to their
+  members unchanged (:201, :216) — `ConfigObject::RestoreObject` calls it with `safe_mode = false`
+  (configobject.cpp:519), so typed objects come back as objects at any depth. -/
+
+def objectTag : Key := ['@', 'o', 'b', 'j', 'e', 'c', 't']
+
+mutual
+/-- `Serialize` on the getter view: the tag disappears. -/
+def stripTag {N : Type} : JValue N → JValue N
+  | .arr xs => .arr (stripTagL xs)
+  | .obj kvs => .obj (stripTagM kvs)
+  | v => v
+def stripTagL {N : Type} : List (JValue N) → List (JValue N)
+  | [] => []
+  | x :: xs => stripTag x :: stripTagL xs
+def stripTagM {N : Type} : Dict N → Dict N
+  | [] => []
+  | (k, v) :: r => if k = objectTag then stripTagM r else (k, stripTag v) :: stripTagM r
+end
+
+mutual
+/-- `Deserialize(value, safe_mode, …)` (serializer.cpp:306-331) into the getter view. -/
+def deserializeT {N : Type} (known : Key → Bool) (safe : Bool) : JValue N → JValue N
+  | .arr xs => .arr (deserializeTL known safe xs)                 -- DeserializeArray :192-205, `safe_mode` passed on
+  | .obj kvs =>
+    if safe || !dHas typeKey kvs then .obj (deserializeTM known safe kvs)   -- :327-328 DeserializeDictionary
+    else
+      match dGet? typeKey kvs with                                -- :329-330 DeserializeObject(nullptr, …)
+      | some (.str s) =>
+        if known s then .obj ((objectTag, .bool true) :: deserializeTM known safe kvs)   -- :243 Instantiate, :246-264
+        else .null                                                -- :234-235
+      | _ => .null
+  | .null => .null
+  | .bool b => .bool b
+  | .num n => .num n
+  | .str s => .str s
+def deserializeTL {N : Type} (known : Key → Bool) (safe : Bool) : List (JValue N) → List (JValue N)
+  | [] => []
+  | x :: xs => deserializeT known safe x :: deserializeTL known safe xs
+def deserializeTM {N : Type} (known : Key → Bool) (safe : Bool) : Dict N → Dict N
+  | [] => []
+  | (k, v) :: r => (k, deserializeT known safe v) :: deserializeTM known safe r
+end
+
+mutual
+/-- A getter-view tree as the real objects produce it: a dictionary is either an object — tagged (first member only),
+    with a `type` member naming a registered type — or a plain dictionary without a `type` member; no other member is
+    called `@object`. -/
+def wellTagged {N : Type} (known : Key → Bool) : JValue N → Bool
+  | .arr xs => wellTaggedL known xs
+  | .obj ((k, v) :: r) =>
+    if k = objectTag then
+      (match v with | .bool true => true | _ => false) && !dHas objectTag r &&
+        (match dGet? typeKey r with
+         | some (.str s) => known s
+         | _ => false) && wellTaggedM known r
+    else !dHas objectTag r && !dHas typeKey ((k, v) :: r) && wellTagged known v && wellTaggedM known r
+  | .obj [] => true
+  | _ => true
+def wellTaggedL {N : Type} (known : Key → Bool) : List (JValue N) → Bool
+  | [] => true
+  | x :: xs => wellTagged known x && wellTaggedL known xs
+def wellTaggedM {N : Type} (known : Key → Bool) : Dict N → Bool
+  | [] => true
+  | (_, v) :: r => wellTagged known v && wellTaggedM known r
+end
+
+mutual
+/-- no dictionary in the tree has a member called `@object` (true of everything `Serialize` writes into the state file) -/
+def noTagKey {N : Type} : JValue N → Bool
+  | .arr xs => noTagKeyL xs
+  | .obj kvs => noTagKeyM kvs
+  | _ => true
+def noTagKeyL {N : Type} : List (JValue N) → Bool
+  | [] => true
+  | x :: xs => noTagKey x && noTagKeyL xs
+def noTagKeyM {N : Type} : Dict N → Bool
+  | [] => true
+  | (k, v) :: r => !(k = objectTag) && noTagKey v && noTagKeyM r
+end
+
 end Icinga.C14
